@@ -32,7 +32,8 @@ def describe(tier):
                 f"keys and 3^m*2^n <= {b['gen_cap']}, key lists in ascending AND in every rotated/reversed order. Oracle: category = literal "
                 "range table R8 or rejection; lists sorted by int, duplicate-free, pairwise disjoint, union = keys of the textually "
                 "substituted expression (R6+R2); generated list as multiset == Cartesian product {F,U,UNKNOWN}^m x {True,False}^n, each "
-                "once, none NEUTRAL; (0,0) => []. Non-trivial = keys at a range boundary / expressions with >= 2 key categories / "
+                "once, none NEUTRAL; (0,0) => []; a second call on the same instance after the caller emptied the returned list gives the full list again, a third one "
+                "after a key was removed from the public key list reflects that. Non-trivial = keys at a range boundary / expressions with >= 2 key categories / "
                 "(m,n) with m,n >= 1.",
         "bounds": b,
         "exhaustive": True,
@@ -205,6 +206,21 @@ def check_gen(rc_keys, fc_keys):
         for rv in itertools.product(("F", "U", "?"), repeat=len(rc_keys)):
             for fv in itertools.product((True, False), repeat=len(fc_keys)):
                 exp.append((tuple(sorted(zip(rc_keys, rv))), tuple(sorted(zip(fc_keys, fv)))))
+    # call SEQUENCES on the one instance: the list handed out is the caller's (emptying it must not affect the next call), and the
+    # key lists are public attributes (the next call reflects what they hold then)
+    if r[1]:
+        r[1].clear()
+    again = I.try_call(x.generate_possible_content_evaluation_results)
+    if again[0] == "exc" or len(again[1]) != len(got):
+        out.append({"kind": "generation-depends-on-earlier-call", "case": case, "expected": f"{len(got)} results again",
+                    "observed": again[1] if again[0] == "exc" else f"{len(again[1])} results after the caller emptied the first list", "msg": ""})
+    if rc_keys:
+        x.requirement_constraint_keys = list(rc_keys[:-1])
+        fewer = I.try_call(x.generate_possible_content_evaluation_results)
+        want = 3 ** (len(rc_keys) - 1) * 2 ** len(fc_keys) if (len(rc_keys) > 1 or fc_keys) else 0
+        if fewer[0] == "exc" or len(fewer[1]) != want or any(rc_keys[-1] in c.requirement_constraints for c in fewer[1]):
+            out.append({"kind": "generation-depends-on-earlier-call", "case": case, "expected": f"{want} results without key {rc_keys[-1]}",
+                        "observed": fewer[1] if fewer[0] == "exc" else f"{len(fewer[1])} results after one requirement key was removed", "msg": ""})
     if sorted(got) != sorted(exp):
         missing = len(set(exp) - set(got))
         dup = len(got) - len(set(got))
